@@ -345,10 +345,18 @@ func genStream(r *rng, n int, elem string, pattern string) []int {
 	return out
 }
 
-func hasSpecial(codes []int) bool {
-	for _, c := range codes {
-		if c < 10 {
-			return true
+// does the program add (or construct from) a zero / special value?
+func progHasSpecial(p cprog) bool {
+	for _, t := range p.threads {
+		for _, c := range t.calls {
+			if c.op == "add" && c.v < 10 {
+				return true
+			}
+		}
+		for _, v := range t.vals {
+			if v < 10 {
+				return true
+			}
 		}
 	}
 	return false
